@@ -110,6 +110,11 @@ func verifShutdown(nExt int, trigger string) {
 	}
 	end := w.note("platform", "shutdown-end", trigger)
 	verifReach("returned")
+	// always within the deadline plus a bounded allowance (the fixed 2 s grace for unreaped processes)
+	verifAssert(w.t()-start <= (allowanceMs+2000+50)*1000000, "the operation returns within the deadline plus the fixed grace")
+	if !launchFails {
+		verifAssert(w.t()-start <= (allowanceMs+50)*1000000, "with every process reaped the operation returns by the deadline")
+	}
 
 	launched := 0
 	for i := 0; i < nExt; i++ {
@@ -172,6 +177,7 @@ func verifShutdown(nExt int, trigger string) {
 			if beh[i] == veSubIgnores {
 				verifAssert(kills(name) == 1, "a subscriber still alive at the deadline is killed")
 				verifAssert(timeOf("kill", name)-start >= allowanceMs*1000000-1000000, "a subscriber is killed only at the deadline")
+				verifAssert(timeOf("kill", name)-start <= allowanceMs*1000000+50*1000000, "a subscriber still alive at the deadline is killed at the deadline, not later")
 			} else {
 				verifAssert(kills(name) == 0, "a subscriber that exited on the event is not killed")
 			}
@@ -189,3 +195,29 @@ func VerifC09Reset1Failure() { verifShutdown(1, "failure") }
 func VerifC09Shutdown1()     { verifShutdown(1, "shutdown") }
 func VerifC09Reset2()        { verifShutdown(2, "timeout") }
 func VerifC09Shutdown2()     { verifShutdown(2, "shutdown") }
+
+// A reset that gave up on an unreapable process (its exit is never reported) returns after the
+// fixed 2 s grace; the operations that follow are not affected: a second reset returns at once and
+// a shutdown of a fresh generation shows the normal choreography.
+func VerifC09AfterUnreaped() {
+	w := newVerifWorld(nil, true, false)
+	w.sup.neverReport = "runtime-1"
+	w.sup.runtimeScript = func(p *verifProc) { w.runtimeNext(p.name) }
+	ir := w.doInit()
+	verifWaitAll()
+	verifSettle()
+	verifAssert(ir.done && ir.success, "initialisation completes")
+	t0 := w.t()
+	w.ctx.HandleReset(&interop.Reset{Reason: "timeout", DeadlineNs: w.mono() + 2000*1000000})
+	d1 := w.t() - t0
+	verifAssert(d1 >= 1900*1000000 && d1 <= 4100*1000000, "a reset that cannot reap a process returns after the fixed grace, within deadline plus grace")
+	verifReach("gave-up")
+	t1 := w.t()
+	w.ctx.HandleReset(&interop.Reset{Reason: "timeout", DeadlineNs: w.mono() + 2000*1000000})
+	verifAssert(w.t()-t1 <= 100*1000000, "a later reset with nothing running returns at once")
+	verifReach("second-reset-returned")
+	t2 := w.t()
+	w.ctx.HandleShutdown(&interop.Shutdown{DeadlineNs: w.mono() + 2000*1000000})
+	verifAssert(w.t()-t2 <= 100*1000000, "a later shutdown with nothing running returns at once")
+	verifReach("done")
+}
